@@ -242,9 +242,13 @@ func (c *Client) Connect() error {
 func (c *Client) startRoutines() {
 	// Start the keepalive go routine
 	keepaliveQuit := make(chan struct{})
-	go keepalive(c.transport, c.config.KeepaliveInterval, keepaliveQuit)
+	keepaliveDone := make(chan struct{})
+	go func() {
+		defer close(keepaliveDone)
+		keepalive(c.transport, c.config.KeepaliveInterval, keepaliveQuit)
+	}()
 	// Start the receiver go routine
-	go c.recv(keepaliveQuit)
+	go c.recv(keepaliveQuit, keepaliveDone)
 }
 
 // connect establishes an actual TCP connection, based on previously defined parameters, as well as a XMPP session
@@ -403,15 +407,17 @@ func (c *Client) sendWithWriter(writer io.Writer, packet []byte) error {
 // Go routines
 
 // Loop: Receive data from server
-func (c *Client) recv(keepaliveQuit chan<- struct{}) {
+func (c *Client) recv(keepaliveQuit chan<- struct{}, keepaliveDone <-chan struct{}) {
 	// The keepalive is stopped before the end of the session is reported: event handlers
 	// (a StreamManager) reconnect from within the callback, and the transport is shared
-	// with the next connection.
+	// with the next connection. A ping that is already under way is waited for, so that
+	// it cannot hit (or close) the connection of the next session.
 	keepaliveStopped := false
 	stopKeepalive := func() {
 		if !keepaliveStopped {
 			keepaliveStopped = true
 			close(keepaliveQuit)
+			<-keepaliveDone
 		}
 	}
 	defer stopKeepalive()
@@ -448,8 +454,8 @@ func (c *Client) recv(keepaliveQuit chan<- struct{}) {
 			_ = c.Send(answer)
 		case stanza.StreamClosePacket:
 			// TCP messages should arrive in order, so we can expect to get nothing more after this occurs
-			stopKeepalive()
 			c.transport.ReceivedStreamClose()
+			stopKeepalive()
 			// Whoever closed the stream first, the session is over.
 			c.disconnected(c.Session.SMState)
 			return
